@@ -313,6 +313,38 @@ def short_hash(obj) -> str:
     return hashlib.sha256(json.dumps(obj, sort_keys=True, default=str).encode()).hexdigest()[:12]
 
 
+FORBIDDEN = re.compile(r"\b(Admitted|admit|Axiom|Axioms|Parameter|Parameters|Conjecture|Conjectures|Admit Obligations|bypass_check)\b|Unset\s+(Guard|Positivity|Universe)\s+Checking|-type-in-type|-impredicative-set")
+
+
+def forbidden_tokens(files: list[str]) -> list[str]:
+    """Declarations and switches the development must not contain (comments are stripped first)."""
+    hits = []
+    for f in files + ["_CoqProject"]:
+        path = COQ / f
+        if not path.exists():
+            continue
+        text = re.sub(r"\(\*.*?\*\)", lambda m: "\n" * m.group(0).count("\n"), path.read_text(), flags=re.S)
+        for i, line in enumerate(text.splitlines(), 1):
+            m = FORBIDDEN.search(line)
+            if m:
+                hits.append(f"{f}:{i}: {m.group(0)}")
+    return hits
+
+
+def coqchk_axioms(prop_file: str, timeout: int = 1500) -> tuple[bool, list[str], str]:
+    """Independent re-check of the compiled closure of a Props file (coqchk -o); returns the axioms it lists."""
+    mod = "VF." + prop_file[:-2].replace("/", ".")
+    p = subprocess.run(["timeout", str(timeout), "coqchk", "-o", "-silent", "-Q", ".", "VF", mod], cwd=COQ,
+                       stdout=subprocess.PIPE, stderr=subprocess.STDOUT, text=True, preexec_fn=_limit_mem)
+    out = p.stdout
+    m = re.search(r"\* Axioms:(.*?)\n\s*\n\* Constants/Inductives relying on type-in-type:(.*?)\n\s*\n\* Constants/Inductives relying on unsafe \(co\)fixpoints:(.*?)\n\s*\n\* Inductives whose positivity is assumed:(.*?)\n", out + "\n", flags=re.S)
+    if p.returncode != 0 or not m:
+        return False, [], out[-2000:]
+    ax = [a.strip() for a in m.group(1).split("\n") if a.strip() and a.strip() != "<none>"]
+    unsafe = [x.strip() for g in (2, 3, 4) for x in m.group(g).split("\n") if x.strip() and x.strip() != "<none>"]
+    return (not unsafe), ax, out[-2000:]
+
+
 # ----------------------------------------------------------------------------------------------
 # a check run
 # ----------------------------------------------------------------------------------------------
@@ -394,6 +426,11 @@ class Run:
         tgt = [t for t in targets if t != prop_file[:-2] + ".vo"]
         n_obl = count_obligations(files)
         self.coverage["obligations"] = n_obl
+        bad = forbidden_tokens(files)
+        if bad:
+            self.proof_failure = {"file": bad[0].split(":")[0], "lemma": "no-Admitted-no-Axiom scan", "message": "; ".join(bad[:10])}
+            self.coverage["discharged"] = 0
+            return False
         self.coverage["checker_cmd"] = (
             f"cd {COQ} && coq_makefile -f _CoqProject <sources> -o Makefile && make -j{NCPU} "
             + " ".join(targets) + f"  (coqc 8.16.1, full .vo build; Props file re-run for Print Assumptions)")
@@ -427,6 +464,15 @@ class Run:
         for t in ass:
             if t["axioms"] is None:
                 self.notes.append(f"Print Assumptions output missing for {t['theorem']}")
+        if self.tier == "thorough":
+            with Lock(".coq.lock"):
+                okc, cax, clog = coqchk_axioms(prop_file)
+            self.coverage["coqchk"] = {"cmd": f"coqchk -o -silent -Q . VF VF.{prop_file[:-2].replace('/', '.')}", "ok": okc, "axioms": cax}
+            self.coverage["trusted_base"].append("coqchk -o (independent checker) on the compiled closure: axioms " + (", ".join(cax) if cax else "none"))
+            if not okc:
+                self.proof_failure = {"file": prop_file, "lemma": "coqchk", "message": clog[-800:]}
+                self.coverage["discharged"] = n_obl - 1
+                return False
         return True
 
     # -- finish --
